@@ -17,7 +17,7 @@ def drop_unused_helpers(p):
     return A.prune_unused(p)
 
 
-def gen_prog(rng, kind, name, prop):
+def gen_prog(rng, kind, name, prop, index=None):
     if kind == "core":
         feat = ["ints", "branches", "objects", "calls"] + (["strs"] if prop == "C08" else [])
         p = A.Gen(rng, name, feat, size=rng.randint(8, 13), calls_after_join=False, max_dec=4).program()
@@ -26,8 +26,8 @@ def gen_prog(rng, kind, name, prop):
                   calls_after_join=True, max_dec=3).program()
     elif kind == "multi":
         p = A.gen_multi_target(rng, name)
-    elif kind in ("bf", "alias", "list", "chain"):
-        p = A.gen_shape(rng, name, kind, strs=(prop == "C08"))
+    elif kind in ("bf", "alias", "list", "chain", "dict", "nest", "mret", "comp"):
+        p = A.gen_shape(rng, name, kind, strs=(prop == "C08"), variant=index)
     elif kind == "twin":
         p = A.Gen(rng, name, ["ints", "strs", "branches", "calls"], size=rng.randint(8, 12),
                   calls_after_join=False, max_dec=3).program()
@@ -40,7 +40,7 @@ def gen_prog(rng, kind, name, prop):
 
 def gen_file(rng, tag, kinds, prop):
     """one packed file; kinds = list of stream kinds, one per program."""
-    return {"tag": tag, "kind": "+".join(sorted(set(kinds))), "progs": [gen_prog(rng, k, f"{tag}x{i}", prop) for i, k in enumerate(kinds)]}
+    return {"tag": tag, "kind": "+".join(sorted(set(kinds))), "progs": [gen_prog(rng, k, f"{tag}x{i}", prop, i) for i, k in enumerate(kinds)]}
 
 
 def plan(rng, prop, tier):
@@ -54,20 +54,26 @@ def plan(rng, prop, tier):
             files.append(gen_file(rng, "a3", ["caj"] * 5 + ["multi"] * 4, prop))
             files.append(gen_file(rng, "s0", ["bf"] * 6 + ["alias"] * 5, prop))
             files.append(gen_file(rng, "s1", ["list"] * 6 + ["chain"] * 4, prop))
+            files.append(gen_file(rng, "s2", ["dict"] * 6 + ["nest"] * 8, prop))
+            files.append(gen_file(rng, "s3", ["mret"] * 6 + ["comp"] * 5, prop))
         else:
             files += [gen_file(rng, f"a{i}", ["core"] * 10, prop) for i in range(100)]
             files += [gen_file(rng, f"j{i}", ["caj"] * 6 + ["multi"] * 4, prop) for i in range(20)]
             files += [gen_file(rng, f"s{i}", ["bf"] * 4 + ["alias"] * 4 + ["list"] * 4 + ["chain"] * 2, prop) for i in range(40)]
+            files += [gen_file(rng, f"u{i}", ["dict"] * 6 + ["nest"] * 7, prop) for i in range(30)]
+            files += [gen_file(rng, f"v{i}", ["mret"] * 6 + ["comp"] * 5, prop) for i in range(20)]
     else:
         if q:
             files += [gen_file(rng, f"a{i}", ["core"] * 8, prop) for i in range(4)]
             files.append(gen_file(rng, "j0", ["caj"] * 7, prop))
-            files.append(gen_file(rng, "s0", ["bf"] * 7 + ["alias"] * 5, prop))
-            files.append(gen_file(rng, "s1", ["alias"] * 5 + ["chain"] * 5, prop))
+            files.append(gen_file(rng, "s0", ["bf"] * 11 + ["alias"] * 3, prop))
+            files.append(gen_file(rng, "s1", ["alias"] * 6 + ["chain"] * 5, prop))
+            files.append(gen_file(rng, "s2", ["bf"] * 4 + ["mret"] * 6 + ["comp"] * 5, prop))
         else:
             files += [gen_file(rng, f"a{i}", ["core"] * 10, prop) for i in range(140)]
             files += [gen_file(rng, f"j{i}", ["caj"] * 8, prop) for i in range(20)]
             files += [gen_file(rng, f"s{i}", ["bf"] * 5 + ["alias"] * 5 + ["chain"] * 3, prop) for i in range(40)]
+            files += [gen_file(rng, f"v{i}", ["mret"] * 6 + ["comp"] * 5 + ["bf"] * 3, prop) for i in range(25)]
     return files
 
 
@@ -96,7 +102,7 @@ def evaluate_files(files, scratch):
 
 def compare_prog(p, r, ref, undefined):
     """Returns dict(bad8=[defs], bad9=[defs], corr=[defs], ref_unsound=[defs], missing=[…], compared=n, gt_error=…)."""
-    out = {"bad8": [], "bad9": [], "corr": [], "ref_unsound": [], "missing": [], "compared": 0, "nested8": [], "stale9": [], "cap": [],
+    out = {"bad8": [], "bad9": [], "corr": [], "ref_unsound": [], "missing": [], "compared": 0, "nested8": [], "stale9": [], "cap": [], "callee8": [], "path8": [],
            "gt_error": r["errors"].get(p["name"]), "pyref_undefined": False, "model_undefined": p["name"] in undefined}
     exact, info = A.pyref(p, r["defs"], with_taint=True)
     if exact is None:
@@ -104,12 +110,13 @@ def compare_prog(p, r, ref, undefined):
         exact = {}
     # helpers invoked from helpers: their P3 tables are keyed by a context that is one call site deep
     nested = set()
-    for h in p.get("helpers", []):
-        for stt in h["body"]:
-            if stt[0] == "call":
-                nested.add(stt[2])
-            elif stt[0] == "callp":
-                nested.add(stt[1])
+    for stt in [x for h in p.get("helpers", []) for x in h["body"]] + [x for c in p.get("classes", []) for x in c.get("init", [])]:
+        if stt[0] == "call":
+            nested.add(stt[2])
+        elif stt[0] == "callp":
+            nested.add(stt[1])
+        elif stt[0] == "new":
+            nested.add(stt[2])
     # finding call-site-cap-stale-summary: main-body calls (straight-line order) of helpers that themselves call a helper
     forwarders = {h["name"] for h in p.get("helpers", []) if any(stt[0] in ("call", "callp") for stt in h["body"])}
     calls_of = {}
@@ -119,6 +126,7 @@ def compare_prog(p, r, ref, undefined):
     for d, why in r["missing"]:
         if d["prog"] == p["name"]:
             out["missing"].append({"line": d["line"], "var": d["var"], "why": why})
+    predicted = None          # frozen prediction of finding C08/callee-write-lost, computed on demand
     for d in r["defs"]:
         if d["prog"] != p["name"]:
             continue
@@ -132,7 +140,7 @@ def compare_prog(p, r, ref, undefined):
         out["compared"] += 1
         entry = {"line": d["line"], "var": d["var"], "kind": d["kind"], "sid": d["sid"], "ground_truth": g, "real": real,
                  "reference": e, "model": m}
-        if d["sid"] and d["sid"][0] == "h" and d["sid"][1] in nested:
+        if d["sid"] and d["sid"][0] in ("h", "c") and d["sid"][1] in nested:
             # finding C08/nested-context-overwritten: the table holds the LAST analysis of the inner helper only.
             # Model-predicted: it must hold at least one complete invocation; precision is not judged here.
             invs = info["invocations"].get(k, [])
@@ -159,6 +167,22 @@ def compare_prog(p, r, ref, undefined):
             first_two = sorted({json.dumps(v) for inv in invs[:2] for v in inv})
             if len(invs) >= 3 and sorted(json.dumps(v) for v in real) == first_two:
                 out["cap"].append(entry)
+                continue
+        if any(not A.covers(real, v) for v in g) and info.get("pathstale", {}).get(k) and real == info["pathstale"][k]:
+            # finding C08/path-write-stale-after-deep-read, model-predicted: exactly the value the cell held before the
+            # caller-side write through a path variable, and a depth-3 path read precedes this read
+            out["path8"].append(entry)
+            continue
+        if any(not A.covers(real, v) for v in g) and e is not None and p.get("helpers"):
+            # finding C08/callee-write-lost, model-predicted: the abstract set is exactly what the frozen variant of the
+            # reference (callee-side deep / object-valued writes dropped) computes, and that differs from the exact set
+            if predicted is None:
+                predicted = (A.pyref(p, r["defs"], mode="lian") or {}, A.pyref(p, r["defs"], mode="lian_strong") or {})
+            pw, ps = predicted[0].get(k), predicted[1].get(k)
+            if pw is not None and ps is not None and (pw != e or ps != e) \
+                    and all(v in real for v in ps) and all(v in pw for v in real):
+                entry["predicted"] = [ps, pw]
+                out["callee8"].append(entry)
                 continue
         if any(not A.covers(real, v) for v in g):
             out["bad8"].append(entry)
@@ -247,6 +271,16 @@ def run_program_part(ctx, st, scratch, prop):
                                     f"definition inside a helper that is invoked from another helper: the P3 tables keep only the last analysis of that "
                                     f"context (context id is one call site deep): line {e['line']} `{r['text'].splitlines()[e['line'] - 1].strip()}` "
                                     f"ground truth {e['ground_truth']} abstract {e['real']}"))
+            if cmp["callee8"] and prop == "C08":
+                e = cmp["callee8"][0]
+                st["known"].append(("C08/callee-write-lost",
+                                    f"a field write performed inside a callee does not reach the caller (receiver read from a field of a parameter, or an "
+                                    f"object-valued source): line {e['line']} `{r['text'].splitlines()[e['line'] - 1].strip()}` ground truth {e['ground_truth']} abstract {e['real']}"))
+            if cmp["path8"] and prop == "C08":
+                e = cmp["path8"][0]
+                st["known"].append(("C08/path-write-stale-after-deep-read",
+                                    f"after reads through a path of depth 3, a later read of a field that was written through a path variable returns the value "
+                                    f"from before that write: line {e['line']} `{r['text'].splitlines()[e['line'] - 1].strip()}` ground truth {e['ground_truth']} abstract {e['real']}"))
             if cmp["cap"]:
                 e = cmp["cap"][0]
                 st["known"].append((f"{prop}/call-site-cap-stale-summary",
